@@ -1226,6 +1226,7 @@ def gen_api_dataflow():
     node = dispatch
     while True:
         kinds = []
+        names = {}
         for st in node.body:
             src = ast.unparse(st)
             val = getattr(st, "value", None)
@@ -1233,6 +1234,7 @@ def gen_api_dataflow():
             if isinstance(st, (ast.Assign, ast.AnnAssign)) and isinstance(tgt, ast.Name) \
                     and isinstance(val, ast.Subscript) and ast.unparse(val.value) == "self._basis_set":
                 kinds.append("basis")
+                names[tgt.id] = str(lit(val.slice, rel))
             elif isinstance(st, ast.Assign) and isinstance(tgt, ast.Name) and isinstance(val, ast.Call) \
                     and isinstance(val.func, ast.Attribute) and val.func.attr == "solve" \
                     and isinstance(val.func.value, ast.Call) and ast.unparse(val.func.value.func).startswith("FCSolver"):
@@ -1240,7 +1242,14 @@ def gen_api_dataflow():
                 args_all.append([ast.unparse(a) for a in val.args]
                                 + [f"{k.arg}={ast.unparse(k.value)}" for k in val.keywords if k.arg != "batch_size"])
                 ctor = val.func.value
-                ctor_all.append(ast.unparse(ctor.args[0]).replace(" ", "") if ctor.args else "")
+                # the first constructor argument, with local names resolved to the basis-set keys they were read from
+                a0 = ctor.args[0] if ctor.args else None
+                if isinstance(a0, ast.Name):
+                    ctor_all.append(names.get(a0.id, "?" + a0.id))
+                elif isinstance(a0, (ast.List, ast.Tuple)) and all(isinstance(e, ast.Name) for e in a0.elts):
+                    ctor_all.append("[" + ",".join(names.get(e.id, "?" + e.id) for e in a0.elts) + "]")
+                else:
+                    ctor_all.append("?" + (ast.unparse(a0) if a0 is not None else ""))
             elif isinstance(st, ast.If) and ast.unparse(st.test) == "is_compact_fc":
                 kinds.append("select")
             elif isinstance(st, ast.Assign) and isinstance(tgt, ast.Subscript) \
